@@ -33,7 +33,8 @@ def iterOf? (j : Json) : Option Iter := do
   let tp ← jInt? (← jField? j "tp")
   let tret ← jInt? (← jField? j "tret")
   let listed ← match jField? j "listed" with | some b => jBool? b | none => some false
-  some { ver, now, dur, pressure, wake, lag, gone, required, patchInit, patchMid, patched, tp, tret, listed }
+  let paused ← jBool? (← jField? j "paused")     -- required: an iteration without it is rejected, not defaulted
+  some { ver, now, dur, pressure, wake, lag, gone, required, patchInit, patchMid, patched, tp, tret, listed, paused }
 
 /-- `{"event": {...}}`, `{"retire": t}` or `{"background": [ver, t]}` -/
 def stepOf? (j : Json) : Option Step :=
